@@ -54,6 +54,10 @@ class Properties:
             raise TypeError(f"key must be str, not {type(key)}")
         del self.inner[key]
 
+    def __copy__(self) -> "Properties":
+        """Copies have a dictionary of their own. (The values are shared.)"""
+        return Properties(inner=dict(self.inner))
+
     def __getitem__(self, key: str) -> Any:
         return self.get(key)
 
